@@ -76,8 +76,20 @@ def run_tempo(bath):
     return np.array(d.states).ravel()
 
 
+# worlds: (P_A, P_B, alternative values for A, alternative values for B).  "@T0": object A is built at zero temperature
+# (the default) and later heated, object B is built hot and later set to zero temperature -- zero temperature selects
+# different integrands inside the correlations classes.
+WORLDS = {"": (P_A, P_B, ALT, ALT),
+          "@T0": ((0.3, 0.0), (0.15, 0.9), (0.6, 0.7), (0.6, 0.0))}
+
+
+def split_kind(kindw):
+    kind, _, w = kindw.partition("@")
+    return kind, WORLDS["@" + w if w else ""]
+
+
 _REFC = {}
-ALL_PARAMS = sorted(set((a, t) for a in (P_A[0], P_B[0], ALT[0]) for t in (P_A[1], P_B[1], ALT[1])))
+ALL_PARAMS = sorted(set((a, t) for a in (P_A[0], P_B[0], ALT[0]) for t in (P_A[1], P_B[1], ALT[1], 0.0)))
 
 
 def _fresh_reference(key):
@@ -124,7 +136,8 @@ def classify(kind, obs, op, cur_p, candidates, ref_fn):
 
 
 def history_case(args):
-    kind, hist = args
+    kindw, hist = args
+    kind, (P_A, P_B, ALT_A, ALT_B) = split_kind(kindw)
     objs = {"A": make_corr(kind, P_A), "B": None}
     params = {"A": P_A, "B": P_B}
     first_eval = {"A": None, "B": None}      # params at the time of the first 2D-integral evaluation (cache fill)
@@ -144,6 +157,7 @@ def history_case(args):
             elif op in ("S1", "S2"):
                 a, t = params[cur]
                 base = P_A if cur == "A" else P_B
+                ALT = ALT_A if cur == "A" else ALT_B
                 if op == "S1":
                     newp = (ALT[0] if a == base[0] else base[0], t)
                 else:
@@ -535,6 +549,84 @@ def retention_case(name):
 
 
 # ------------------------------------------------------------------------------------------------
+# (4b) query histories on one TwoTimeBathCorrelations object: the table of system correlations it accumulates while
+#      answering earlier (shorter) queries must not change what a later query returns
+
+BD_QUERIES = ["c11", "c12", "c23", "c14", "c34", "c22", "occ", "occ2"]
+_BD = {}
+
+
+def bd_env():
+    if not _BD:
+        bath = oq.Bath(0.5 * M.SZ, M.ohmic(alpha=0.3, temperature=0.5))
+        prm = oq.TempoParameters(dt=DT, epsrel=1e-9)
+        _BD["bath"] = bath
+        _BD["pt"] = oq.pt_tempo_compute(bath, 0.0, 4.3 * DT, prm, progress_type="silent")
+        # the system does not commute with the coupling: two-time system correlations vary over the table
+        _BD["sys"] = oq.System(0.9 * M.SX + 0.3 * M.SZ)
+        _BD["ref"] = {q: bd_query(bd_new(), q) for q in BD_QUERIES}
+    return _BD
+
+
+def bd_new(given=None):
+    E = _BD
+    return oq.bath_dynamics.TwoTimeBathCorrelations(E["sys"], E["bath"], E["pt"], initial_state=M.RHO_GEN2,
+                                                    system_correlations=given)
+
+
+def bd_query(tt, q):
+    if q == "occ":
+        return np.asarray(tt.occupation(1.3, change_only=True, progress_type="silent")[1], dtype=complex).ravel()
+    if q == "occ2":
+        return np.asarray(tt.occupation(0.6, 0.2, change_only=False, progress_type="silent")[1], dtype=complex).ravel()
+    k1, k2 = int(q[1]), int(q[2])
+    return np.array([complex(tt.correlation(1.3, k1 * DT, freq_2=0.8, time_2=k2 * DT, dagg=dg, progress_type="silent"))
+                     for dg in ((1, 0), (0, 1), (1, 1))])
+
+
+def bathdyn_history_case(hist):
+    E = bd_env()
+    vio = []
+    given = None
+    qs = list(hist)
+    if qs[0].startswith("given"):
+        # the caller supplies a (correct) shorter table of system correlations, as the API allows
+        n = int(qs[0][5:])
+        full = bd_new()
+        full.generate_system_correlations(4 * DT, progress_type="silent")
+        given = np.array(full._system_correlations[:n, :n])
+        qs = qs[1:]
+    tt = bd_new(given)
+    for i, q in enumerate(qs):
+        try:
+            obs = bd_query(tt, q)
+        except Exception as ex:  # noqa
+            vio.append((f"bathdyn|{q[:1]}-query-after-earlier-queries|exception:{type(ex).__name__}", f"history {hist}: {ex}"[:200]))
+            break
+        ref = E["ref"][q]
+        if obs.shape != ref.shape or np.abs(obs - ref).max() > 1e-7:
+            before = "+".join(sorted(set(("table-given" if h.startswith("given") else "occupation" if h.startswith("occ")
+                                          else "correlation") for h in hist[:len(hist) - len(qs) + i]))) or "nothing"
+            vio.append((f"bathdyn|{'occupation' if q.startswith('occ') else 'correlation'}-after-{before}|"
+                        f"differs-from-a-fresh-object",
+                        f"history {hist}: query {q} differs from the same query on a fresh object by "
+                        f"{np.abs(obs - ref).max() if obs.shape == ref.shape else 'shape'}"))
+            break
+    return {"vio": vio, "n": len(qs)}
+
+
+def bathdyn_histories(tier):
+    out = []
+    depth = 3 if tier == "quick" else 4
+    for L in range(1, depth + 1):
+        out += list(itertools.product(BD_QUERIES, repeat=L))
+    for g in ("given1", "given2", "given3"):
+        for L in (1, 2):
+            out += [(g,) + h for h in itertools.product(BD_QUERIES, repeat=L)]
+    return out
+
+
+# ------------------------------------------------------------------------------------------------
 # (5) a process tensor whose tensors are replaced answers with its current tensors
 
 def pt_update_case(args):
@@ -682,6 +774,15 @@ def run(tier, seed):
                 if kind == "CustomCorrelations" and sum(o in ("E", "R", "T") for o in h) > 2:
                     continue       # dblquad-based integrals are slow; at most two evaluations per history
                 jobs.append((kind, h))
+    # the zero-temperature world: all histories one level shallower
+    for kind in ("PowerLawSD@T0", "CustomSD@T0"):
+        for L in range(1, depth):
+            for h in itertools.product(OPS, repeat=L):
+                if not any(o in ("E", "R", "T") for o in h) or "S2" not in h:
+                    continue
+                if h[0] in ("R", "T") or h[-1] in ("S1", "S2", "X", "B"):
+                    continue
+                jobs.append((kind, h))
     precompute_references(kinds)       # before the worker pool is forked: workers inherit the pristine references
     res = pmap(history_case, jobs, seed=seed)
     states, trans = set(), 0
@@ -704,6 +805,13 @@ def run(tier, seed):
         nl += r["n"]
         for cls, what in r["vio"]:
             rep.add(Violation(cls, what, {"part": "retention", "api": nm}))
+    bd_env()
+    bh = bathdyn_histories(tier)
+    br = pmap(bathdyn_history_case, bh, seed=seed)
+    for h, r in zip(bh, br):
+        nl += r["n"]
+        for cls, what in r["vio"]:
+            rep.add(Violation(cls, what, {"part": "bathdyn", "hist": list(h)}))
     ujobs = [(k, f, o) for k in ("rank4", "rank4T", "rank3", "rank3T", "pttempo") for f in (False, True)
              for o in ((), ("use",), ("get",), ("get", "use"), ("use", "get"), ("recompute",), ("use", "recompute"))]
     ur = pmap(pt_update_case, ujobs, seed=seed)
@@ -724,20 +832,23 @@ def run(tier, seed):
         "transitions": trans + nl,
         "traces_validated_against_impl": len(jobs) + nl + len(perms),
         "histories": len(jobs), "history_depth": depth, "layout_runs": nl, "apis_with_array_arguments": len(names),
-        "reuse_orders": len(perms),
+        "reuse_orders": len(perms), "bath_dynamics_query_histories": len(bh),
         "exhaustive": tier == "thorough",
         "rule": "state = (current public parameter values of objects A and B, selected object, parameters the latest bath was "
                 "built with); every history over {E,B,R,T,S1,S2,X} up to the depth that ends in an observation is executed on real "
                 "objects (CustomCorrelations: depth <= 4 and at most two evaluations); oracle = same observation on freshly "
                 "constructed objects; layouts: 19 array arguments x up to 7 layouts; retention: 16 APIs that keep a caller array, the caller "
-                "overwrites its array in place after the call and the object must answer as before; process-tensor update: 4 kinds x "
+                "overwrites its array in place after the call and the object must answer as before; bath dynamics: every sequence "
+                "of up to 3 (thorough 4) queries out of 8 (correlations at 6 time pairs, 2 occupations) on one TwoTimeBathCorrelations "
+                "object, optionally starting from a caller-supplied shorter table, each answer compared with a fresh object; process-tensor update: 4 kinds x "
                 "{in-memory, file-backed} x 5 use/get prefixes, then all tensors are replaced and the object must behave like a fresh one; reuse: orders of 7 computations (5 kinds + the same stacked Control object used twice) on "
                 "shared objects, a regular sub-sample of the 2520 distinct orders (quick every 40th, thorough every 6th)",
         "samples": [{"kind": jobs[(17 * seed) % len(jobs)][0], "history": list(jobs[(17 * seed) % len(jobs)][1])},
                     {"layout": ["AugmentedMPS.gamma(rank2)", "T-view"]}, {"reuse": list(perms[0])}],
     }
     rep.assumptions = ["reference observations are computed in freshly spawned interpreters (one evaluation per process)",
-                       "public attributes considered: alpha / j_function / correlation_function (S1) and temperature (S2)",
+                       "public attributes considered: alpha / j_function / correlation_function (S1) and temperature (S2); temperature "
+                       "values 0.2/0.9/0.7 and, in a second world explored one level shallower, 0 -> 0.7 and 0.9 -> 0",
                        "fresh-object replay is the oracle; Tempo comparisons to 1e-6 at epsrel 1e-9"]
     return rep
 
@@ -752,6 +863,10 @@ def replay(rp):
     if rp["part"] == "ptupdate":
         a = rp["args"]
         r = pt_update_case((a[0], a[1], tuple(a[2])))
+        return {"obs": r["vio"], "violation": r["vio"][0][0] if r["vio"] else None}
+    if rp["part"] == "bathdyn":
+        bd_env()
+        r = bathdyn_history_case(tuple(rp["hist"]))
         return {"obs": r["vio"], "violation": r["vio"][0][0] if r["vio"] else None}
     if rp["part"] == "retention":
         r = retention_case(rp["api"])
